@@ -83,9 +83,6 @@ func c17RunCalls(prng sampling.PRNG, r *ring.Ring, kinds []c17Kind, calls []c17C
 		case 'r':
 			v.Read(regs[cl.reg])
 		case 'n':
-			if _, isT := v.(*ring.TernarySampler); isT {
-				v = samplers[cl.s] // TernarySampler.AtLevel(l).ReadNew() panics below the top level (probed separately)
-			}
 			outs = append(outs, c17CopyRows(v.ReadNew().Coeffs))
 			continue
 		case 'a':
@@ -187,7 +184,7 @@ func c17ProbeTernary(c *Ctx) {
 		}
 		lvl := c.rng.Intn(len(chain))
 		p := r.NewPoly()
-		s.AtLevel(lvl).Read(p) // (ReadNew on a ternary level view panics: probe ternary-atlevel)
+		s.AtLevel(lvl).Read(p)
 		detail := ""
 		nz := 0
 		for j := 0; j < N; j++ {
@@ -232,7 +229,7 @@ func c17ProbeTernary(c *Ctx) {
 			return ""
 		})
 		if detail == "panic" {
-			detail = "AtLevel(l).ReadNew() panics for l < MaxLevel (view samples with the original sampler's ring)"
+			detail = "AtLevel(l).ReadNew() panics for l < MaxLevel"
 		}
 		args := fmt.Sprintf("N=%d Q=%s key=%s P=%s H=%d level=%d", N, Vec(chain), Hex(key), c17F64(X.P), X.H, lvl)
 		c.Probe("ternary-atlevel-readnew", args, "C17-ternary-atlevel-ignored", detail)
@@ -253,14 +250,16 @@ func c17ProbeTernary(c *Ctx) {
 		}
 		c.Probe("ternary-atlevel-read", args, "C17-ternary-atlevel-ignored", detail)
 	}
-	// negative Hamming weight is accepted by the constructor (observation)
+	// malformed distribution parameters are rejected by the constructor
 	r := c17Ring(16, []uint64{257})
-	_, err := ring.NewTernarySampler(c17Keyed(nil), r, ring.Ternary{H: -1}, false)
-	detail := ""
-	if err == nil {
-		detail = "NewTernarySampler accepts H=-1 (Read then returns the zero polynomial)"
+	for _, X := range []ring.Ternary{{H: -1}, {H: -9}, {P: -0.5}, {P: 1.5}, {P: 0.5, H: 3}, {}} {
+		_, err := ring.NewTernarySampler(c17Keyed(nil), r, X, false)
+		detail := ""
+		if err == nil {
+			detail = fmt.Sprintf("NewTernarySampler accepts %+v", X)
+		}
+		c.Probe("ternary-malformed-rejected", fmt.Sprintf("N=16 Q=257 P=%s H=%d", c17F64(X.P), X.H), "C17-ternary-negative-H", detail)
 	}
-	c.Probe("ternary-negative-H-rejected", "N=16 Q=257 H=-1", "C17-ternary-negative-H", detail)
 }
 
 // Gaussian: |x| <= round(bound), limbs reduced, one integer across moduli
@@ -539,7 +538,7 @@ func c17ProbeStats(c *Ctx) {
 		}
 		c.Stats["stat:"+tag+":p_next0_given_minus_x1e4"] = int(math.Round(a * 1e4))
 		c.Stats["stat:"+tag+":p_next0_given_plus_x1e4"] = int(math.Round(b * 1e4))
-		c.Probe("TEST-ternary-adjacent-independence", fmt.Sprintf("P=%s draws=%d", c17F64(P), n), "C17-ky-sign-bit-reuse", detail)
+		c.Probe("TEST-ternary-adjacent-independence", fmt.Sprintf("P=%s draws=%d", c17F64(P), n), "C17/ternary-ky-sign-bit-reused", detail)
 	}
 	// fixed weight: sign balance
 	for _, H := range []int{8, 32, 64} {
